@@ -69,7 +69,7 @@ def check_cfg(ctx, fx, cfg):
     # R05.3 timers
     if cfg != "bare":
         timers = timer_coroutines(fx)
-        ctx.floor("R05.3", "timer coroutines in " + cfg, len(timers), 4)
+        ctx.floor("R05.3", "timer coroutines in " + cfg, len(timers), 2)  # at least one periodic and one one-shot body (APIs may share bodies)
         for f in timers:
             co = fx.coroutines.get(f["def"])
             inst = "%s@%s" % (f["def"].split("::")[-2], cfg)
@@ -133,7 +133,7 @@ def check_cfg(ctx, fx, cfg):
     # R05.10 closed list of closures / futures that own a strong handle (each is a handle's internals, an operation that was
     # given the handle by value, a transient upgrade during one send, or construction); a new one is reported for review
     CLOSURE_HOLDERS = (
-        "actor::builder::ActorBuilderWithChannel::<A, P, R>::register::", "actor::service::<impl addr::Addr<A>>::register::", "actor::service::<impl addr::Addr<A>>::replace::",
+        "actor::builder::ActorBuilderWithChannel::<A, P, R>::register::", "addr::Addr::<A>::register::", "addr::Addr::<A>::replace::",
         "actor::service::SpawnableService::from_registry_and_spawn::", "actor::service::Service::from_registry_and_spawn::",
         "addr::caller::Caller::<M>::call::", "addr::caller::Caller::<M>::new::", "addr::sender::Sender::<M>::new::",
         "addr::weak_addr::WeakAddr::<A>::try_halt::", "addr::weak_caller::WeakCaller::<M>::try_call::", "addr::weak_sender::WeakSender::<M>::try_send::",
